@@ -131,7 +131,7 @@ def reference_candidates(g, raw_cov, cn_solution):
 def silent_conflicts(g, copies, cov):
     """(copy, site) pairs where a planted copy shows a silent non-insertion variant at the site of a
     supported core variant it does not carry itself (the major model expects reference there)."""
-    core_sites = {m.pos for a in g.alleles.values() for m in a.func_muts if m.op[:3] != "ins"}
+    core_sites = {m.pos for a in g.alleles.values() for m in a.func_muts}  # insertion sites have a reference term too
     n = 0
     for c in copies:
         a, mi = c[0], c[1]
@@ -339,17 +339,7 @@ def _pairs_case(res, case):
             res.check("planted_reported_zero_error", False,
                       "noise-free evidence: no candidate allele for a configuration of the planted structure", **desc)
             continue
-        # a planted copy showing a *silent* substitution / deletion at the site of a core variant: the major
-        # model only knows core variants, expects that copy to read as reference there, and carries an
-        # error of one copy per such (copy, site) - the true combination then cannot score zero
-        core_sites = {m.pos for a in g.alleles.values() for m in a.func_muts if m.op[:3] != "ins"}
-        conflicts = 0
-        for a, mi in copies:
-            core_here = {m.pos for m in g.alleles[a].func_muts if m.op[:3] != "ins"}
-            for m in g.alleles[a].minors[mi].neutral_muts:
-                if m.op[:3] != "ins" and m.pos in core_sites and m.pos not in core_here and \
-                        any(fm.pos == m.pos and cov[fm] > 0 for b in g.alleles.values() for fm in b.func_muts):
-                    conflicts += 1
+        conflicts = silent_conflicts(g, copies, cov)
         keyset = set()
         hit = False
         hit_with_conflict_error = False
